@@ -158,7 +158,11 @@ func unfold(p *packages.Package, fd *ast.FuncDecl, e ast.Expr, depth int) ast.Ex
 		}
 		// a parameter of fd
 		k := 0
-		for _, prm := range fd.Type.Params.List {
+		var plist []*ast.Field
+		if fd.Type != nil && fd.Type.Params != nil {
+			plist = fd.Type.Params.List
+		}
+		for _, prm := range plist {
 			for _, nm := range prm.Names {
 				if info.Defs[nm] == types.Object(v) {
 					if fd.Name.IsExported() || assignedAnywhere(info, fd, v) || unfoldLocalsOnly {
